@@ -15,6 +15,7 @@ Record NumOps := {
   nleb : num -> num -> bool;
   neqb : num -> num -> bool;
   nofZ : Z -> num;                        (* a Python int literal *)
+  ndec : Z -> Z -> num;                   (* a Python float literal m * 10^-k, e.g. 0.1 = ndec 1 1, 100.0 = ndec 100 0 *)
   nround : Z -> num -> num;               (* utils.indexing.round_values on one number: floats only *)
   nsum : list num -> num;                 (* builtin sum() *)
   nsqrt : num -> option num;              (* math.sqrt; None = ValueError *)
